@@ -135,7 +135,7 @@ class C10(Prop):
             "non-trivial = CNF with >= 3 variables that is not trivial; CNFs above the variable bound get structural "
             "checks only (counted as capped)")
     families = {"quick": [("FDUP", 4), ("F1.1dup", 4), ("FT", 8), ("FC3", 32), ("F2.3", 48), ("F3.1", 16), ("F1.3s", 32), ("F2.2", 8), ("F1.1", 4)],
-                "thorough": [("FDUP", 4), ("F1.1dup", 4), ("FT", 8), ("FC3", 32), ("FC3g", 256), ("F3.2", 96), ("F2.4", 256), ("F2.3", 48), ("F1.2", 128), ("F1.3s", 32), ("F3.1", 16), ("F2.2", 8), ("F1.1", 4)]}
+                "thorough": [("FDUP", 4), ("F1.1dup", 4), ("FT", 8), ("FC3", 32), ("FC3g/8", 64), ("F3.2", 96), ("F2.4/4", 64), ("F2.3", 48), ("F1.2", 128), ("F1.3s", 32), ("F3.1", 16), ("F2.2", 8), ("F1.1", 4)]}
     budget = {"quick": 300, "thorough": 2400}
 
     def shards(self, tier):
